@@ -25,15 +25,17 @@ Residuals == {"energy_noh_residual", "simplified_energy_noh_residual", "pressure
 Symmetry  == {0, 1, 2}
 InitRho   == Pick({<<1, 1>>, <<2, 1>>}, {})
 InitU     == Pick({<<-1, 1>>, <<-3, 2>>}, {})
+InitP     == {<<0, 1>>, <<1, 5>>}          \* a pre-shock pressure is admitted in planar symmetry only (documented)
 
 VARIABLE pb
 Init == \/ \E eos \in EosSet, r \in Dens, e \in Ener :
               InDomain(eos, r) /\ pb = [kind |-> "state", eos |-> eos, rho |-> r, e |-> e]
-        \/ \E eos \in EosSet, f \in Residuals, s \in Symmetry, r0 \in InitRho, u0 \in InitU, r \in Dens, e \in Ener :
+        \/ \E eos \in EosSet, f \in Residuals, s \in Symmetry, r0 \in InitRho, u0 \in InitU, p0 \in InitP, r \in Dens, e \in Ener :
               /\ InDomain(eos, r) /\ InDomain(eos, r0)
               /\ r = <<3, 1>> /\ e = <<1, 2>>                                   \* one Jacobian evaluation point per formulation ...
               /\ (f \in {"simplified_energy_noh_residual", "simplified_pressure_noh_residual"} => s = 0)   \* documented: "this residual assumes symmetry = 0"
-              /\ pb = [kind |-> "jacobian", eos |-> eos, fn |-> f, symmetry |-> s, rho0 |-> r0, u0 |-> u0, rho |-> r, e |-> e]
+              /\ (p0[1] # 0 => s = 0 /\ f \in {"energy_noh_residual", "pressure_noh_residual"})    \* the simplified residuals assume P0 = 0 (documented ValueError)
+              /\ pb = [kind |-> "jacobian", eos |-> eos, fn |-> f, symmetry |-> s, rho0 |-> r0, u0 |-> u0, p0 |-> p0, rho |-> r, e |-> e]
         \/ \E eos \in EosSet, s \in Symmetry, r0 \in InitRho, u0 \in InitU :
               /\ InDomain(eos, QMul(r0, <<16, 1>>))
               \* with a non-ideal EOS the cold converging inflow is not pressure-free (e(rho, 0) depends on rho): the jump
